@@ -324,13 +324,15 @@ def intended(program):
             nm = s.get('name', '0')
             names.setdefault(cls(s['a']), []).append(nm)
             grounds.append(cls(s['a']))
-            comps.append(dict(type='ground', id=nm, terms=[cls(s['a'])], value={}, kind=k))
+            comps.append(dict(type='ground', id=nm, terms=[cls(s['a'])], pts=[tuple(s['a'])], value={}, kind=k))
         elif k != 'wire':
             typ, val = expected_component(s)
             a, b = cls(s['a']), cls(s['b'])
-            # a reversed source (or labelled wire) is listed from its end to its start terminal
-            terms = [b, a] if (s.get('rev') and (k in SOURCES or k == 'sc')) else [a, b]
-            comps.append(dict(type=typ, id=s['name'], terms=terms, value=val, kind=k, rev=bool(s.get('rev')),
+            # every reversed two-terminal symbol is listed from its end to its start terminal (for a passive
+            # element: the same element with the reversed reference direction, as its annotations show it)
+            terms = [b, a] if s.get('rev') else [a, b]
+            pts = [tuple(s['b']), tuple(s['a'])] if s.get('rev') else [tuple(s['a']), tuple(s['b'])]
+            comps.append(dict(type=typ, id=s['name'], terms=terms, pts=pts, value=val, kind=k, rev=bool(s.get('rev')),
                               deg=bool(s.get('vals', {}).get('deg')), sin=bool(s.get('vals', {}).get('sin'))))
     points = sorted({tuple(s['a']) for s in program} | {tuple(s['b']) for s in program if 'b' in s})
     return dict(cls={p: cls(p) for p in points}, names=names, comps=comps, grounds=grounds)
